@@ -200,6 +200,24 @@ try:
             import traceback
             r["err"] = type(e).__name__ + ": " + str(e)[:300] + traceback.format_exc()[-500:]
         res.append(r)
+    # raw document texts: load -> write -> load must be a fixed point
+    probes = []
+    for name, text in P.get("texts", []):
+        pr = {"name": name}
+        try:
+            f0 = os.path.join(d, "probe0.nml")
+            open(f0, "w").write(text)
+            d0 = NeuroMLLoader.load(f0)
+            dump0 = gds_impl.dump(d0)
+            f1 = os.path.join(d, "probe1.nml")
+            NeuroMLWriter.write(d0, f1)
+            dump1 = load_dump(f1)
+            pr["fixed"] = dump0 == dump1
+            if not pr["fixed"]:
+                pr["diff"] = [[a, b] for a, b in zip(json.dumps(dump0).split('"'), json.dumps(dump1).split('"')) if a != b][:3]
+        except Exception as e:  # noqa
+            pr["err"] = type(e).__name__ + ": " + str(e)[:200]
+        probes.append(pr)
 finally:
     shutil.rmtree(d, ignore_errors=True)
-print(json.dumps({"results": res}))
+print(json.dumps({"results": res, "probes": probes}))
